@@ -85,12 +85,6 @@ func UnmarshalAttribute(attr *api.Attribute) (bgp.PathAttributeInterface, error)
 		var linkLocalNexthop netip.Addr
 		if rf.Afi() == bgp.AFI_IP6 {
 			nexthop = netip.IPv6Unspecified()
-			if len(a.MpReach.NextHops) > 1 {
-				linkLocalNexthop, err = netip.ParseAddr(a.MpReach.NextHops[1])
-				if err != nil || !linkLocalNexthop.Is6() {
-					return nil, fmt.Errorf("invalid nexthop: %s", a.MpReach.NextHops[1])
-				}
-			}
 		}
 		if rf.Safi() == bgp.SAFI_FLOW_SPEC_UNICAST || rf.Safi() == bgp.SAFI_FLOW_SPEC_VPN {
 			nexthop = netip.Addr{}
@@ -98,6 +92,14 @@ func UnmarshalAttribute(attr *api.Attribute) (bgp.PathAttributeInterface, error)
 			nexthop, err = netip.ParseAddr(a.MpReach.NextHops[0])
 			if err != nil {
 				return nil, fmt.Errorf("invalid nexthop: %s", nexthop)
+			}
+		}
+		// A link-local next hop follows an IPv6 global one whatever the AFI
+		// of the NLRI is (RFC 2545, RFC 8950).
+		if len(a.MpReach.NextHops) > 1 && (rf.Afi() == bgp.AFI_IP6 || nexthop.Is6()) {
+			linkLocalNexthop, err = netip.ParseAddr(a.MpReach.NextHops[1])
+			if err != nil || !linkLocalNexthop.Is6() {
+				return nil, fmt.Errorf("invalid nexthop: %s", a.MpReach.NextHops[1])
 			}
 		}
 		l := make([]bgp.PathNLRI, 0, len(nlris))
